@@ -86,12 +86,25 @@ def gen_cases(rng, tier):
             else:
                 recs.append(V.gen_record(r, descspec=r.choice(descs), types=types))
         cases.append({"kind": "cuts", "records": shrink_big(recs), "gz": i % 2 == 0, "faults": i % 3 == 0})
+    # frames far larger than any buffer (1-5 MiB values) with ordinary frames behind them, cut at a handful of positions
+    # around every frame boundary and inside the large bodies (every byte would take hours)
+    rb = rng.fork("big")
+    bigcases = []
+    for _ in range({"quick": 2, "thorough": 10, "search": 3}[tier]):
+        dsb = ["t/big", [["bytes", "blob"], ["string", "txt"], ["varint", "n"]]]
+        recs = []
+        for i in range(rb.randint(3, 5)):
+            big = rb.chance(40) or i == 1
+            size = rb.choice([2 ** 20 - 30, 2 ** 20 + 1, 2 ** 20 + 4097, 3 * 2 ** 20 + 17, 5 * 2 ** 20]) if big else rb.randint(0, 40)
+            recs.append(["rec", dsb, [["zeros", size] if rb.chance(50) else V.B(b"b"),
+                                      ["spaces", size] if big else V.S("t%d" % i), V.I(i)], g])
+        bigcases.append({"kind": "bigcuts", "records": recs, "gz": rb.chance(50)})
     # a comparison-ignore configuration in force while the stream is written (a de-duplicating producer): it concerns ==
     # and hash() only - the frames written are the same
     for c in cases:
         names = [n_ for s_ in c["records"] if s_[0] == "rec" for _, n_ in s_[1][1]]
         c["ignore"] = r.choice([["_generated"], names[:1] + ["_generated"], names[-1:] or ["_source"], ["_source", "_classification"]])
-    return cases
+    return cases + bigcases
 
 
 def shrink_big(recs):
@@ -144,8 +157,80 @@ class FailingFile(io.BytesIO):
         pass
 
 
+def _light(rec):
+    """a cheap fingerprint of a (possibly huge) record: type, fields and a digest of every value"""
+    import hashlib
+    return [rec._desc.name, [[n, type(v).__name__, hashlib.sha256(repr(v).encode("utf-8", "surrogatepass")).hexdigest()]
+                             for n, v in rec._asdict().items()]]
+
+
+def _run_bigcuts(case):
+    from flow.record import RecordReader, RecordStreamWriter
+    recs = [V.build(s_) for s_ in case["records"]]
+    buf = io.BytesIO()
+    w = RecordStreamWriter(buf)
+    ends = []
+    for r in recs:
+        w.write(r)
+        ends.append(buf.tell())
+    data = buf.getvalue()
+    w.fp = None
+    want = [_light(r) for r in recs]
+    frames, _ = W.split_frames(data)
+    bounds = [0] + [off + 4 + len(body) for off, body in frames]
+    cuts = {len(data)}
+    for b in bounds:
+        for dlt in (-1, 0, 1, 3, 4, 5, 4100):
+            if 19 <= b + dlt <= len(data):
+                cuts.add(b + dlt)
+    for (off, body) in frames:
+        if len(body) > 2 ** 19:
+            cuts.update({off + 4 + len(body) // 2, off + 4 + 2 ** 20, off + 4 + 2 ** 20 + 1} & set(range(len(data) + 1)))
+    problems, per_cut = [], []
+    d = tempfile.mkdtemp(prefix="frv-c04-")
+    try:
+        for k in sorted(cuts):
+            n_expected = sum(1 for e in ends if e <= k)
+            last = max(b for b in bounds if b <= k)
+            want_clean = (k - last) < 4
+            p = os.path.join(d, "cut.records" + (".gz" if case.get("gz") and k == len(data) else ""))
+            with (gzip.open(p, "wb", compresslevel=1) if p.endswith(".gz") else open(p, "wb")) as fh:
+                fh.write(data[:k])
+            for via in ("fileobj", "path"):
+                got, end = [], "eof"
+                try:
+                    rd = RecordReader(p) if via == "path" else RecordReader(fileobj=io.BytesIO(data[:k]))
+                    try:
+                        for rec in rd:
+                            got.append(_light(rec))
+                    finally:
+                        rd.close()
+                except Exception as e:          # noqa: BLE001
+                    end = "error:" + type(e).__name__
+                per_cut.append([k, via, len(got), end])
+                if got != want[:len(got)]:
+                    problems.append(f"cut {k} of {len(data)} ({via}): a yielded record differs from the record written")
+                elif len(got) != n_expected:
+                    problems.append(f"cut {k} of {len(data)} ({via}): {len(got)} records yielded, {n_expected} frames were "
+                                    f"completely written (frame sizes {[len(b_) for _, b_ in frames]}; {end})")
+                elif want_clean and end != "eof":
+                    problems.append(f"cut {k} ({via}, frame boundary / inside a length prefix): reader raised {end}")
+                elif not want_clean and end == "eof":
+                    problems.append(f"cut {k} ({via}, inside a frame body): reader ended silently instead of raising")
+    finally:
+        shutil.rmtree(d, ignore_errors=True)
+    return {"len": len(data), "per_cut": per_cut, "ncuts": len(per_cut), "nfaults": 0, "n_records": len(recs),
+            "n_frames": len(frames), "full_end": "eof", "problems": problems[:5], "n_problems": len(problems),
+            "same_under_ignore": None, "frame_sizes": [len(b_) for _, b_ in frames]}
+
+
 def run_real(case):
     from flow.record import RecordReader, RecordStreamWriter
+
+    if case.get("kind") == "bigcuts":
+        with warnings.catch_warnings():
+            warnings.simplefilter("ignore")
+            return _run_bigcuts(case)
 
     with warnings.catch_warnings():
         warnings.simplefilter("ignore")
@@ -374,6 +459,8 @@ def oracle(case, obs):
 
 
 def model_op(case, obs):
+    if case.get("kind") == "bigcuts":
+        return None               # megabytes of frame: the oracle decides (the Lean cut model runs on the small streams)
     return {"op": "wire_cuts", "hex": obs["stream"]}     # identifiers by the model's own SHA-256 (Spec.descriptorHash)
 
 
@@ -396,6 +483,8 @@ def nontrivial(case, obs):
 
 
 def classify(case, obs):
+    if case.get("kind") == "bigcuts":
+        return ["bigcuts", f"bigcuts:largest-frame>={max(obs['frame_sizes']) // 2 ** 20}MiB"]
     out = [f"cuts:{obs['ncuts'] // 500 * 500}+", f"faults:{obs['nfaults'] > 0}", f"gz:{bool(case.get('gz'))}"]
     return out
 
